@@ -28,6 +28,20 @@ def _device(rng, probes, screening):
     return zoo.gen_device(rng, n_terminals=2 if probes else int(rng.choice([0, 2])), probes=probes, size="tiny", smooth=0, gamma=float(rng.choice([1.0, 10.0])))
 
 
+def _tiny(case, dt):
+    """The same fixed-step case with a tiny time step (no auto_dt: tiny steps are stable on any mesh)."""
+    o = case["options"]
+    N = case["N_target"]
+    ts = o.get("auto_dt", {}).get("therm_steps", 0)
+    o.pop("auto_dt", None)
+    o.update(dt_init=dt, dt_max=max(0.1, dt), solve_time=max(N * dt - dt / 2, 0.0), adaptive=False)
+    if case["therm"]:
+        o["skip_time"] = max(ts, 3) * dt - dt / 2
+    case["drive"]["A"] = {"kind": "uniform", "B": case["drive"]["A"].get("B", 0.05)}
+    case["tiny_dt"] = dt
+    return case
+
+
 def _case(rng, N, k, mode, therm, probes, screening):
     dev = _device(rng, probes, screening)
     dt = float(rng.choice([0.002, 0.005, 0.0037]))
@@ -66,6 +80,10 @@ def gen_cases(tier, seed):
         for _ in range(6):
             N = int(rng.integers(30, 90)); k = int(rng.choice([1, 7, 10, 25]))
             cases.append(_case(rng, N, k, "fixed", False, 2, False))
+        for j in range(6):
+            # very small time steps (1e-12 .. 1e-8): a step is a step however small
+            N = int(rng.integers(3, 13)); k = int(rng.integers(1, N + 2))
+            cases.append(_tiny(_case(rng, N, k, "fixed", bool(j % 2), int([0, 2, 3][j % 3]), False), float([1e-9, 1e-12, 3e-9, 1e-8, 2e-10, 1e-11][j])))
     else:
         for N in range(0, 13):
             for k in range(1, N + 3):
@@ -73,6 +91,9 @@ def gen_cases(tier, seed):
                     for therm in (False, True):
                         for probes in (0, 2, 3):
                             cases.append(_case(rng, N, k, mode, therm, probes, bool(rng.random() < 0.1)))
+        for j in range(60):
+            N = int(rng.integers(1, 13)); k = int(rng.integers(1, N + 3))
+            cases.append(_tiny(_case(rng, N, k, "fixed", bool(j % 2), int([0, 2, 3][j % 3]), False), float(10.0 ** rng.uniform(-12, -8))))
         for _ in range(40):
             N = int(rng.integers(30, 200)); k = int(rng.choice([1, 3, 7, 10, 25, 100]))
             cases.append(_case(rng, N, k, str(rng.choice(["fixed", "adaptive"])), bool(rng.integers(2)), int(rng.choice([0, 2, 3])), False))
